@@ -37,12 +37,12 @@ RULE = (
     "result with >= 2 rows was returned and judged); distinct = digest of the logged inputs."
 )
 STRATA = {
-    "conv": (2600, 110000),
-    "cigar": (1500, 60000),
-    "helpers": (2200, 90000),
-    "slicing": (2200, 90000),
-    "msa": (1500, 60000),
-    "pairwise": (1000, 40000),
+    "conv": (2600, 80000),
+    "cigar": (1500, 36000),
+    "helpers": (2200, 66000),
+    "slicing": (2200, 66000),
+    "msa": (1500, 36000),
+    "pairwise": (1000, 36000),
 }
 REQUIRED_ORACLES = [
     "invariant_hook", "produced_alignment_valid",
